@@ -576,6 +576,8 @@ def pairwise_pass(ck, rule):
         if not is_res:
             raise AnalysisError(f"{w}: written values do not come from resolveConflict(): {T.show(res)[:120]}")
         pair = res[1] if res[0] == "mcall" else res[2]
+        if pair is None:
+            raise AnalysisError(f"{w}: the receiver of resolveConflict() is not visible in {T.show(res)[:160]}")
         want_pair_shape = pair[0] == "app" and pair[1].endswith(".checkForConflicts")
         if not want_pair_shape:
             ck.violation(rule, short(fn) + ":pair", w,
